@@ -512,6 +512,10 @@ class Dataset(AbstractDataset, dict, OpMixin, GetSetDelAttrMixin):
         a: ('x0',)
         b: ('x0', 'x1')
         """
+        if name is not None:
+            pos, _ = self._get_axis_info(axis)
+            if name in [ax.name for i, ax in enumerate(self.axes) if i != pos]:
+                raise ValueError("axis name already exist: {}".format(name))
         if not inplace: self = self.copy()
         self.axes[axis].set(values=values, inplace=True, name=name, **kwargs)
         if not inplace: return self
